@@ -246,6 +246,8 @@ def run(ctx):
                     ctx.count("models_npk_%d" % len(sp.pk))
                     if sp.inherit:
                         ctx.count("models_with_overridden_key_column")
+                    if not sp.compute:
+                        ctx.count("models_with_routing_disabled")
                     if sp.pk != sp.decl_pk:
                         ctx.count("models_table_key_order_differs_from_declaration_order")
                     drive_model(sp, pv)
@@ -283,6 +285,15 @@ def run(ctx):
             except tolerate:
                 pass
             except Exception as e:
+                import traceback
+                frames = [f.name for f in traceback.extract_tb(e.__traceback__)]
+                if any(f in ('_routing_key_from_values', 'partition_key_values', '_update_part_key_values', '_set_routing_key',
+                             '_key_parts_packed') or 'key_serializer' in f for f in frames) or (
+                        '_execute_statement' in frames and frames[-1] in ('<lambda>', 'to_binary', 'serialize')):
+                    ctx.violation("routing-key-computation-raises", "%s: computing the routing key raised %s: %s" % (opname, type(e).__name__, str(e)[:200]),
+                                  {"operation": opname, "frames": frames[-6:], "partition_key": [(n, S.cql_name(sp.cols[n][2]) if sp.cols[n][2][0] != 'udt' else 'udt') for n in sp.pk],
+                                   "key_values": repr([canon[n] for n in sp.pk])[:300] if canon else None})
+                    return
                 if not seen:
                     ctx.count("operation_failed_before_sending:%s:%s" % (opname, type(e).__name__))
                     return
